@@ -126,7 +126,7 @@ pub fn cfg_strategy(p: Profile, thorough: bool) -> BoxedStrategy<Cfg> {
                 c.refs = b2;
                 c.children = b3;
                 c.sync = b3 && b2;
-                vis.prop_map(move |v| Cfg { vis: v, ..c.clone() }).boxed()
+                (vis, prop_oneof![3 => Just(0u8), 1 => Just(2u8)]).prop_map(move |(v, a)| Cfg { vis: v, auth: a, ..c.clone() }).boxed()
             }
             Profile::Prespawn => {
                 c.prespawn = true;
@@ -212,7 +212,7 @@ pub fn step_strategy(cfg: &Cfg, p: Profile) -> BoxedStrategy<Step> {
         (0..clients, 0..slots, proptest::bool::weighted(0.2), any::<bool>()).prop_map(|(client, slot, kill, gap)| Step::PreSpawn { client, slot, kill, gap }).boxed(),
     ));
     v.push((w(cfg.faults, 1), (0..clients).prop_map(|client| Step::Disconnect { client }).boxed()));
-    v.push((w(cfg.faults, 1), Just(Step::ServerRestart).boxed()));
+    v.push((w(cfg.faults, 1), prop_oneof![2 => Just(Step::ServerRestart), 1 => Just(Step::ServerStop), 2 => Just(Step::ServerStart)].boxed()));
     v.push((w(cfg.auth == 1, 3), (0..clients).prop_map(|client| Step::Authorize { client }).boxed()));
     v.push((
         w(lossy, 1),
